@@ -314,7 +314,8 @@ func zzStep(h *zzHost, disk, mem filesystem.Filespace, ref *reftree.Node) bool {
 		}
 		s := ref.Find(segs)
 		refuse = inside && !dclimbs && s == nil
-		inside = inside && !dclimbs && len(segs) > 0 && len(dsegs) > 0 && s != nil &&
+		// (the filespace root is a directory source like any other)
+		inside = inside && !dclimbs && len(dsegs) > 0 && s != nil &&
 			(op == oCopy || (op == oCopyFile) == !s.Dir) &&
 			ref.Find(dsegs) == nil && ref.ParentExists(dsegs)
 		if inside {
@@ -408,6 +409,14 @@ func ZZVerifC02CopyInside() {
 	mem, _ := memfs.NewFilespace()
 	ref := reftree.NewRoot()
 	zzPrelude([]filesystem.Filespace{disk, mem}, ref)
+	// neighbours whose names have the fresh destination names as a string
+	// prefix (a/nn beside the destination a/n, a/d/nx beside a/d/n)
+	for _, fs := range []filesystem.Filespace{disk, mem} {
+		nd.Assume(fs.WriteFile("a/nn/k", []byte("4"), filesystem.DefaultUnixFileMode) == nil)
+		nd.Assume(fs.WriteFile("a/d/nx/k", []byte("5"), filesystem.DefaultUnixFileMode) == nil)
+	}
+	ref.WriteFile([]string{"a", "nn", "k"}, []byte("4"))
+	ref.WriteFile([]string{"a", "d", "nx", "k"}, []byte("5"))
 	zzTemplates = true
 	zzOpSet = []int{oCopyDir, oCopy}
 	if zzStep(h, disk, mem, ref) {
